@@ -67,7 +67,7 @@ Definition agree (c : case) : bool :=
 (* ---------- spec oracle ---------- *)
 Definition spec_world (c : case) : option jworld :=
   match spec_domain c with
-  | Some sd => Some {| jw_eps := c_eps c; jw_tt := spec_tt sd; jw_objs := c_objs c; jw_actions := sd_actions sd |}
+  | Some sd => Some {| jw_eps := c_eps c; jw_tt := spec_tt sd; jw_objs := dupdate (sd_consts sd) (c_objs c); jw_actions := sd_actions sd |}
   | None => None
   end.
 
